@@ -312,7 +312,18 @@ func c42ServerPipelines(c *an.Ctx, roles map[*ssa.Function]map[int]string) []c42
 						limIdx = i
 					}
 				}
+				// the cap may travel inside a local struct (one integer field) handed to the handler by value
+				var carrier *ssa.Alloc
+				var capFld *types.Var
 				if limIdx < 0 {
+					for i, a := range hc.Call.Args {
+						if al, f := c42Carrier(a); al != nil && al.Parent() == fn {
+							carrier, capFld, limIdx = al, f, i
+						}
+					}
+				}
+				if limIdx < 0 {
+					c.Problem("%s: no integer cap (argument or field of a local struct argument) is handed to the handler the delegate iterator is passed to", name)
 					continue
 				}
 				// a pair = one alternative of the selection: handler, cap value, and the function/site where
@@ -348,7 +359,57 @@ func c42ServerPipelines(c *an.Ctx, roles map[*ssa.Function]map[int]string) []c42
 				lphi, lIsPhi := lv.(*ssa.Phi)
 				hex, hIsEx := hv.(*ssa.Extract)
 				lex, lIsEx := lv.(*ssa.Extract)
+				var capStores []*ssa.Store
+				okCarrier := true
+				if carrier != nil {
+					capStores, okCarrier = c42LocalFieldStores(carrier, capFld)
+					for _, st := range capStores {
+						// every store of the cap happens before the handler call
+						okCarrier = okCarrier && an.Reaches(fn, st, hc, nil, nil)
+					}
+				}
 				switch {
+				case carrier != nil && (!okCarrier || len(capStores) == 0):
+					c.Problem("%s: the struct field carrying the cap is written in a way that cannot be paired with the handler selection", name)
+				case carrier != nil && hIsPhi:
+					used := map[*ssa.Store]bool{}
+					for i := range hphi.Edges {
+						ts := c42Targets(c, hphi.Edges[i])
+						if len(ts) != 1 {
+							c.Problem("%s: handler phi edge does not resolve to one function", name)
+							continue
+						}
+						blk := hphi.Block().Preds[i]
+						var mine []*ssa.Store
+						for _, st := range capStores {
+							if (st.Block() == blk || st.Block().Dominates(blk)) && !st.Block().Dominates(hphi.Block()) {
+								mine = append(mine, st)
+							}
+						}
+						if len(mine) == 0 {
+							// no store of its own on this alternative: the cap stored before the selection applies
+							for _, st := range capStores {
+								if st.Block().Dominates(hphi.Block()) && st.Block() != hphi.Block() {
+									mine = append(mine, st)
+								}
+							}
+						}
+						if len(mine) != 1 {
+							c.Problem("%s: the cap stored for one handler alternative is ambiguous", name)
+							continue
+						}
+						used[mine[0]] = true
+						pairs = append(pairs, pair{ts[0], mine[0].Val, fn, mine[0], mtVals})
+					}
+					for _, st := range capStores {
+						if !used[st] && !(st.Block().Dominates(hphi.Block()) && st.Block() != hphi.Block()) {
+							c.Problem("%s: a store of the cap field does not belong to one handler alternative", name)
+						}
+					}
+				case carrier != nil && len(ts) == 1 && len(capStores) == 1:
+					pairs = append(pairs, pair{ts[0], capStores[0].Val, fn, hc, mtVals})
+				case carrier != nil:
+					c.Problem("%s: handler/limit selection shape not recognised (cap carried in a struct)", name)
 				case hIsPhi && lIsPhi && hphi.Block() == lphi.Block():
 					for i := range hphi.Edges {
 						ts := c42Targets(c, hphi.Edges[i])
@@ -454,8 +515,29 @@ func c42ServerPipelines(c *an.Ctx, roles map[*ssa.Function]map[int]string) []c42
 					intParams = append(intParams, prm)
 				}
 			}
-			if !c.Need(len(iterParams) == 1 && len(intParams) == 1, "handler "+name+" has one iterator and one integer (limit) parameter") {
+			// ... or one struct parameter with one integer field that carries the cap
+			var capParam *ssa.Parameter
+			var capField *types.Var
+			if len(intParams) == 0 {
+				for _, prm := range h.Params {
+					if f := c42OneIntField(prm.Type()); f != nil {
+						if capParam != nil {
+							capParam, capField = nil, nil
+							break
+						}
+						capParam, capField = prm, f
+					}
+				}
+			}
+			if !c.Need(len(iterParams) == 1 && (len(intParams) == 1 || capParam != nil), "handler "+name+" has one iterator parameter and one integer (limit) parameter or struct parameter with one integer field") {
 				continue
+			}
+			isCap := func(r ssa.Value) bool {
+				if len(intParams) == 1 {
+					return r == ssa.Value(intParams[0])
+				}
+				q, f := c42ParamField(r)
+				return q == capParam && f == capField
 			}
 			// consumers: calls (not Apply/Limit/Map/Close) taking an iterator argument
 			nCons := 0
@@ -497,7 +579,7 @@ func c42ServerPipelines(c *an.Ctx, roles map[*ssa.Function]map[int]string) []c42
 						okLim := false
 						if len(pr.limitArgs) == 1 {
 							for _, r := range an.Roots(pr.limitArgs[0], nil) {
-								okLim = r == ssa.Value(intParams[0])
+								okLim = isCap(r)
 							}
 						}
 						cons := ci.String()
@@ -874,6 +956,7 @@ func c42CallSiteRoles(c *an.Ctx, roles map[*ssa.Function]map[int]string, disp []
 		idx  int
 		role string
 		pos  token.Pos
+		fld  *types.Var // non-nil: the role is carried by this field of the struct-valued parameter idx
 	}
 	var needs []need
 	fieldRole := map[*types.Var]string{}
@@ -881,6 +964,10 @@ func c42CallSiteRoles(c *an.Ctx, roles map[*ssa.Function]map[int]string, disp []
 	// classify the wire role of a value at a call site outside package filters
 	classify := func(v ssa.Value) (role string, param *ssa.Parameter, field *types.Var) {
 		for _, r := range an.Roots(v, nil) {
+			// a field of a struct-valued parameter: the role is decided where the struct is built
+			if q, f := c42ParamField(r); q != nil {
+				return "", q, f
+			}
 			switch x := r.(type) {
 			case *ssa.Call:
 				if pf, ok := an.IsCallTo(x, an.M(c42Flt, "", "ParseFilter")); ok {
@@ -894,7 +981,10 @@ func c42CallSiteRoles(c *an.Ctx, roles map[*ssa.Function]map[int]string, disp []
 				return "", x, nil
 			case *ssa.UnOp:
 				if x.Op == token.MUL {
-					if f, _ := an.FieldOf(x.X); f != nil {
+					if f, b := an.FieldOf(x.X); f != nil {
+						if _, local := b.(*ssa.Alloc); local {
+							return "", nil, nil // a local struct, not a field of the client
+						}
 						return "", nil, f
 					}
 				}
@@ -934,7 +1024,7 @@ func c42CallSiteRoles(c *an.Ctx, roles map[*ssa.Function]map[int]string, disp []
 					case prm != nil:
 						for i, q := range prm.Parent().Params {
 							if q == prm {
-								needs = append(needs, need{prm.Parent(), i, want, cl.Pos()})
+								needs = append(needs, need{prm.Parent(), i, want, cl.Pos(), fld})
 							}
 						}
 						// the parent may be a closure's outer function: handled through Roots already
@@ -981,6 +1071,22 @@ func c42CallSiteRoles(c *an.Ctx, roles map[*ssa.Function]map[int]string, disp []
 					continue
 				}
 				role, _, _ := classify(d.call.Call.Args[ai])
+				if nd.fld != nil {
+					// the argument is a local struct: classify what was stored into that field
+					role = ""
+					if u, ok := d.call.Call.Args[ai].(*ssa.UnOp); ok && u.Op == token.MUL {
+						if a, ok := u.X.(*ssa.Alloc); ok {
+							sts, okSt := c42LocalFieldStores(a, nd.fld)
+							for i, st := range sts {
+								r, _, _ := classify(st.Val)
+								if !okSt || (i > 0 && r != role) {
+									r = "?"
+								}
+								role = r
+							}
+						}
+					}
+				}
 				hkind := "NDJSON"
 				if len(an.CallsDeep(h, an.M(c42Iter, "", "ReadAllResults"))) > 0 {
 					hkind = "JSON"
@@ -1300,35 +1406,46 @@ func c42FilterSkeleton(c *an.Ctx, roles map[*ssa.Function]map[int]string) {
 	if g == nil || len(g.Blocks) == 0 {
 		return
 	}
-	gname := an.FuncName(g)
-	// local slices built under HasPrefix(filter, "!")
-	var neg, pos []*ssa.Alloc
-	// the negation marker test: strings.HasPrefix(f, "!") or the `found` result of strings.CutPrefix(f, "!")
-	hp := an.Calls(g, an.M("strings", "", "HasPrefix"), an.M("strings", "", "CutPrefix"))
-	var hpVals []ssa.Value
-	for _, h := range hp {
-		if k, ok := an.ConstOf(an.Args(h)[1]); ok && k.Kind() == constant.String && constant.StringVal(k) == "!" {
-			if an.Callee(h).Name == "CutPrefix" {
-				hpVals = append(hpVals, an.Result(h, 1)...)
-			} else if v := an.CallValue(h); v != nil {
-				hpVals = append(hpVals, v)
+	// the polarity logic may be spread over package-local functions g calls: one builds the
+	// negative/positive lists (the function testing the "!" prefix), one matches addresses
+	// against them; the lists are followed through results and parameters
+	gset := []*ssa.Function{g}
+	inG := map[*ssa.Function]bool{g: true}
+	for i := 0; i < len(gset) && i < 12; i++ {
+		for _, cl := range an.AllCalls(gset[i]) {
+			h := an.Callee(cl).Static
+			if h != nil && h.Pkg == g.Pkg && len(h.Blocks) > 0 && h.Parent() == nil && !inG[h] {
+				inG[h] = true
+				gset = append(gset, h)
 			}
 		}
 	}
-	if !c.Need(len(hpVals) >= 1, "test of the \"!\" negation prefix (strings.HasPrefix / strings.CutPrefix) in "+gname) {
+	// the negation marker test: strings.HasPrefix(f, "!") or the `found` result of strings.CutPrefix(f, "!")
+	var bfn *ssa.Function
+	var hpVals []ssa.Value
+	for _, f := range gset {
+		var vals []ssa.Value
+		for _, h := range an.Calls(f, an.M("strings", "", "HasPrefix"), an.M("strings", "", "CutPrefix")) {
+			if k, ok := an.ConstOf(an.Args(h)[1]); ok && k.Kind() == constant.String && constant.StringVal(k) == "!" {
+				if an.Callee(h).Name == "CutPrefix" {
+					vals = append(vals, an.Result(h, 1)...)
+				} else if v := an.CallValue(h); v != nil {
+					vals = append(vals, v)
+				}
+			}
+		}
+		if len(vals) > 0 && bfn == nil {
+			bfn, hpVals = f, vals
+		}
+	}
+	if !c.Need(bfn != nil, "test of the \"!\" negation prefix (strings.HasPrefix / strings.CutPrefix) in the address filter function or a package-local function it calls") {
 		return
 	}
-	negE, posE := an.BoolEdges(g, hpVals, true), an.BoolEdges(g, hpVals, false)
+	bname := an.FuncName(bfn)
+	negE, posE := an.BoolEdges(bfn, hpVals, true), an.BoolEdges(bfn, hpVals, false)
 	// appends: t = append(load cell, ...); store cell <- t   (cells because the slices are loop-carried)  or phi-carried values
-	type app struct {
-		call *ssa.Call
-		key  string // identity of the slice variable: cell or phi-name
-	}
 	sliceKey := func(v ssa.Value) string {
-		// the slice variable an append extends: follow phis/cells to a stable key = the declaration comment of the variable
-		for _, r := range an.Roots(v, nil) {
-			_ = r
-		}
+		// the slice variable an append extends: a stable key = the declaration comment of the variable
 		if u, ok := v.(*ssa.UnOp); ok && u.Op == token.MUL {
 			if a := an.CellOf(u.X); a != nil {
 				return "cell:" + a.Comment
@@ -1339,63 +1456,171 @@ func c42FilterSkeleton(c *an.Ctx, roles map[*ssa.Function]map[int]string) {
 		}
 		return ""
 	}
-	_ = neg
-	_ = pos
-	negKey, posKey, outKey := "", "", ""
-	var outApps []*ssa.Call
-	for _, cl := range an.AllCalls(g) {
+	isAppend := func(cv *ssa.Call) bool {
+		bi, ok := cv.Call.Value.(*ssa.Builtin)
+		return ok && bi.Name() == "append"
+	}
+	negKey, posKey := "", ""
+	builder := map[*ssa.Call]bool{}
+	for _, cl := range an.AllCalls(bfn) {
 		cv := an.CallValue(cl)
-		if cv == nil {
-			continue
-		}
-		if bi, ok := cv.Call.Value.(*ssa.Builtin); !ok || bi.Name() != "append" {
+		if cv == nil || !isAppend(cv) {
 			continue
 		}
 		key := sliceKey(cv.Call.Args[0])
 		if key == "" {
 			continue
 		}
-		isNeg := an.GuardedBy(g, nil, cv, negE) && len(negE) > 0
-		isPos := an.GuardedBy(g, nil, cv, posE) && len(posE) > 0
+		isNeg := an.GuardedBy(bfn, nil, cv, negE) && len(negE) > 0
+		isPos := an.GuardedBy(bfn, nil, cv, posE) && len(posE) > 0
 		switch {
 		case isNeg && !isPos:
 			negKey = key
+			builder[cv] = true
 		case isPos && !isNeg:
 			posKey = key
-		default:
-			outKey = key
-			outApps = append(outApps, cv)
+			builder[cv] = true
 		}
 	}
-	if !c.Need(negKey != "" && posKey != "" && outKey != "" && negKey != posKey, "negative/positive filter lists and result list in "+gname) {
+	if !c.Need(negKey != "" && posKey != "" && negKey != posKey, "negative/positive filter lists built under the \"!\" test in "+bname) {
 		return
 	}
-	// matcher calls: bool-valued static calls taking a value of the neg / pos list
+	// tagged: v (in f) is the negative / positive list
+	type tq struct {
+		f   *ssa.Function
+		v   ssa.Value
+		key string
+	}
+	memo := map[tq]int{}
+	var tagged func(f *ssa.Function, v ssa.Value, key string) bool
+	tagged = func(f *ssa.Function, v ssa.Value, key string) bool {
+		q := tq{f, v, key}
+		switch memo[q] {
+		case 1:
+			return true
+		case 2, 3:
+			return false
+		}
+		memo[q] = 3
+		res := false
+		if f == bfn && sliceKey(v) == key {
+			res = true
+		}
+		if !res {
+			roots := an.Roots(v, nil)
+			all := len(roots) > 0
+			for _, r := range roots {
+				okR := false
+				switch x := r.(type) {
+				case *ssa.Parameter:
+					// every call site in the set passes the list
+					idx := -1
+					for i, p := range f.Params {
+						if p == x {
+							idx = i
+						}
+					}
+					n := 0
+					okR = idx >= 0
+					for _, m := range gset {
+						for _, cl := range an.AllCalls(m) {
+							if an.Callee(cl).Static != f || an.CallValue(cl) == nil {
+								continue
+							}
+							n++
+							if idx < 0 || idx >= len(cl.Common().Args) || !tagged(m, cl.Common().Args[idx], key) {
+								okR = false
+							}
+						}
+					}
+					okR = okR && n > 0
+				case *ssa.Call, *ssa.Extract:
+					var call *ssa.Call
+					k := 0
+					if ex, ok := x.(*ssa.Extract); ok {
+						call, _ = ex.Tuple.(*ssa.Call)
+						k = ex.Index
+					} else {
+						call = x.(*ssa.Call)
+					}
+					if call == nil {
+						break
+					}
+					h := an.Callee(call).Static
+					if h == nil || !inG[h] {
+						break
+					}
+					rets := an.Returns(h)
+					okR = len(rets) > 0
+					for _, rt := range rets {
+						if k >= len(rt.Results) || !tagged(h, rt.Results[k], key) {
+							okR = false
+						}
+					}
+				default:
+					if f == bfn && sliceKey(r) == key {
+						okR = true
+					}
+				}
+				all = all && okR
+			}
+			res = all
+		}
+		if res {
+			memo[q] = 1
+		} else {
+			memo[q] = 2
+		}
+		return res
+	}
+	// matcher calls: bool-valued static calls taking the neg / pos list; the function that makes them selects the addresses
+	var sfn *ssa.Function
 	var negCalls, posCalls []ssa.Value
-	for _, cl := range an.AllCalls(g) {
-		cv := an.CallValue(cl)
-		if cv == nil || an.Callee(cv).Static == nil {
-			continue
-		}
-		res := cv.Call.Signature().Results()
-		if res.Len() != 1 || !types.Identical(res.At(0).Type().Underlying(), types.Typ[types.Bool]) {
-			continue
-		}
-		for _, a := range cv.Call.Args {
-			switch sliceKey(a) {
-			case negKey:
-				negCalls = append(negCalls, cv)
-			case posKey:
-				posCalls = append(posCalls, cv)
+	for _, f := range gset {
+		var nc, pc []ssa.Value
+		for _, cl := range an.AllCalls(f) {
+			cv := an.CallValue(cl)
+			if cv == nil || an.Callee(cv).Static == nil {
+				continue
+			}
+			res := cv.Call.Signature().Results()
+			if res.Len() != 1 || !types.Identical(res.At(0).Type().Underlying(), types.Typ[types.Bool]) {
+				continue
+			}
+			for _, a := range cv.Call.Args {
+				if _, ok := a.Type().Underlying().(*types.Slice); !ok {
+					continue
+				}
+				switch {
+				case tagged(f, a, negKey):
+					nc = append(nc, cv)
+				case tagged(f, a, posKey):
+					pc = append(pc, cv)
+				}
 			}
 		}
+		if len(nc)+len(pc) > 0 && (sfn == nil || len(nc)+len(pc) > len(negCalls)+len(posCalls)) {
+			sfn, negCalls, posCalls = f, nc, pc
+		}
 	}
-	if !c.Check(len(negCalls) >= 1 && len(posCalls) >= 1, "O4", "R-DOM", gname, "negative-and-positive-lists-consulted", g.Pos(),
+	if sfn == nil {
+		sfn = bfn
+	}
+	gname := an.FuncName(sfn)
+	if !c.Check(len(negCalls) >= 1 && len(posCalls) >= 1, "O4", "R-DOM", gname, "negative-and-positive-lists-consulted", sfn.Pos(),
 		"both the negative and the positive filter list are matched against each address",
 		fmt.Sprintf("applyAddrFilter builds a negative and a positive filter list but matches addresses against %d/%d of them: '!proto' exclusions (or positive selections) have no effect", len(negCalls), len(posCalls))) {
 		return
 	}
-	noPos := an.GRelEdges(g, func(r an.GRel) bool {
+	var outApps []*ssa.Call
+	for _, cl := range an.AllCalls(sfn) {
+		cv := an.CallValue(cl)
+		if cv == nil || !isAppend(cv) || builder[cv] || sliceKey(cv.Call.Args[0]) == "" {
+			continue
+		}
+		outApps = append(outApps, cv)
+	}
+	noPos := an.GRelEdges(sfn, func(r an.GRel) bool {
 		a, b, op := r.A, r.B, r.Op
 		if _, ok := an.IntConst(a); ok {
 			a, b, op = b, a, an.SwapRel(op)
@@ -1405,20 +1630,20 @@ func c42FilterSkeleton(c *an.Ctx, roles map[*ssa.Function]map[int]string) {
 		if !ok || !ok2 {
 			return false
 		}
-		if bi, ok := call.Call.Value.(*ssa.Builtin); !ok || bi.Name() != "len" || sliceKey(call.Call.Args[0]) != posKey {
+		if bi, ok := call.Call.Value.(*ssa.Builtin); !ok || bi.Name() != "len" || !tagged(sfn, call.Call.Args[0], posKey) {
 			return false
 		}
 		return (op == token.EQL && k == 0) || (op == token.LEQ && k == 0) || (op == token.LSS && k == 1)
 	})
 	for _, ap := range outApps {
-		okN := an.GuardedBy(g, nil, ap, an.BoolEdges(g, negCalls, false))
+		okN := an.GuardedBy(sfn, nil, ap, an.BoolEdges(sfn, negCalls, false))
 		c.Check(okN, "O4", "R-DOM", gname, "keep<=!negative-match", ap.Pos(), "an address is kept only where no negative ('!') filter matches",
 			"an address is appended to the result on a path where the negative-filter test did not fail: '!proto' filters do not exclude (or positive and negative lists are swapped)")
-		okP := an.GuardedBy(g, nil, ap, an.BoolEdges(g, posCalls, true).Union(noPos))
+		okP := an.GuardedBy(sfn, nil, ap, an.BoolEdges(sfn, posCalls, true).Union(noPos))
 		c.Check(okP, "O4", "R-DOM", gname, "keep<=positive-match|none", ap.Pos(), "an address is kept only where a positive filter matches or none is given",
 			"an address is appended to the result on a path where positive filters exist and none matched")
 	}
-	c.Min("O4 result appends in "+gname, len(outApps), 1)
+	c.Min("O4 result appends of the address selection ("+gname+")", len(outApps), 1)
 }
 
 // c42DropsNil: ApplyFiltersToIter's result passes through iter.Filter with a predicate that
@@ -1689,4 +1914,137 @@ func c42HelperValidates(h *ssa.Function, idx int, hc *ssa.Call, nameV ssa.Value)
 func c42EvtValue(in ssa.Instruction) ssa.Value {
 	v, _ := in.(ssa.Value)
 	return v
+}
+
+// c42OneIntField: t is a struct type with exactly one integer field (which is returned).
+func c42OneIntField(t types.Type) *types.Var {
+	st, ok := t.Underlying().(*types.Struct)
+	if !ok {
+		return nil
+	}
+	var out *types.Var
+	for i := 0; i < st.NumFields(); i++ {
+		if b, ok := st.Field(i).Type().Underlying().(*types.Basic); ok && b.Info()&types.IsInteger != 0 {
+			if out != nil {
+				return nil
+			}
+			out = st.Field(i)
+		}
+	}
+	return out
+}
+
+// c42Carrier: v is the value of a local struct variable with exactly one integer field.
+func c42Carrier(v ssa.Value) (*ssa.Alloc, *types.Var) {
+	u, ok := v.(*ssa.UnOp)
+	if !ok || u.Op != token.MUL {
+		return nil, nil
+	}
+	a, ok := u.X.(*ssa.Alloc)
+	if !ok {
+		return nil, nil
+	}
+	f := c42OneIntField(u.Type())
+	if f == nil {
+		return nil, nil
+	}
+	return a, f
+}
+
+// c42LocalFieldStores: the stores that define field f of the local struct variable a:
+// stores through &a.f, and the field initialisers of a composite literal copied into a.
+// ok is false when a is (also) written in a way that is not understood.
+func c42LocalFieldStores(a *ssa.Alloc, f *types.Var) (out []*ssa.Store, ok bool) {
+	ok = true
+	var visit func(x *ssa.Alloc, depth int)
+	visit = func(x *ssa.Alloc, depth int) {
+		for _, ref := range *x.Referrers() {
+			switch r := ref.(type) {
+			case *ssa.FieldAddr:
+				fv, _ := an.FieldOf(r)
+				for _, r2 := range *r.Referrers() {
+					switch st := r2.(type) {
+					case *ssa.Store:
+						if st.Addr == ssa.Value(r) && fv == f {
+							out = append(out, st)
+						}
+					case *ssa.UnOp:
+					default:
+						if fv == f {
+							ok = false // the field's address escapes
+						}
+					}
+				}
+			case *ssa.Store:
+				if r.Addr != ssa.Value(x) {
+					ok = false
+					continue
+				}
+				if u, isLoad := r.Val.(*ssa.UnOp); isLoad && u.Op == token.MUL {
+					if b, isAlloc := u.X.(*ssa.Alloc); isAlloc && depth < 2 {
+						visit(b, depth+1)
+						continue
+					}
+				}
+				ok = false
+			case *ssa.UnOp, *ssa.DebugRef:
+			default:
+				ok = false
+			}
+		}
+	}
+	visit(a, 0)
+	return out, ok
+}
+
+// c42SpilledParam: a is the local copy of a struct-valued parameter that is never modified.
+func c42SpilledParam(a *ssa.Alloc) *ssa.Parameter {
+	var prm *ssa.Parameter
+	for _, ref := range *a.Referrers() {
+		switch r := ref.(type) {
+		case *ssa.Store:
+			p, ok := r.Val.(*ssa.Parameter)
+			if r.Addr != ssa.Value(a) || !ok || prm != nil {
+				return nil
+			}
+			prm = p
+		case *ssa.FieldAddr:
+			for _, r2 := range *r.Referrers() {
+				if _, ok := r2.(*ssa.UnOp); !ok {
+					if _, ok := r2.(*ssa.DebugRef); !ok {
+						return nil
+					}
+				}
+			}
+		case *ssa.UnOp, *ssa.DebugRef:
+		default:
+			return nil
+		}
+	}
+	return prm
+}
+
+// c42ParamField: v reads field f of a struct-valued parameter (directly, or through the
+// parameter's unmodified local copy).
+func c42ParamField(v ssa.Value) (*ssa.Parameter, *types.Var) {
+	switch x := v.(type) {
+	case *ssa.Field:
+		if p, ok := x.X.(*ssa.Parameter); ok {
+			f, _ := an.FieldOf(x)
+			return p, f
+		}
+	case *ssa.UnOp:
+		if x.Op != token.MUL {
+			return nil, nil
+		}
+		if fa, ok := x.X.(*ssa.FieldAddr); ok {
+			if a, ok := fa.X.(*ssa.Alloc); ok {
+				if p := c42SpilledParam(a); p != nil {
+					f, _ := an.FieldOf(fa)
+					return p, f
+				}
+			}
+		}
+	}
+	return nil, nil
 }
